@@ -41,6 +41,21 @@ structure WalSt where
   frameOffsets : List (Nat × Nat) := []
   chksums : WalCks := []
 
+/-- an `Export` / `WriteSnapshotTo` in progress in another goroutine (small-step: one lock call or
+    the page copy per step) -/
+structure BgSt where
+  snapshot : Bool
+  idx : Nat
+  pc : Nat := 0
+  pauseAt : Option (LockType × GS × GS) := none
+  paused : Bool := false
+  capTxid : Nat := 0
+  capChk : Chk := 0
+  capPageSize : Nat := 0
+  capPageN : Nat := 0
+  capOffsets : List (Nat × Nat) := []
+  capWal : Bool := false
+
 structure Eng where
   opened : Bool := false
   primary : Bool := false
@@ -62,6 +77,8 @@ structure Eng where
   exit : Nat := 0
   compress : Bool := false
   held : Option Nat := none      -- internal guard set held by the driver's `whold` op
+  bg : Option BgSt := none
+  bgResult : String := ""
 
 inductive Res where
   | ok | readonly | exists_ | enoent | eexist | err | busy | rejected | applyFailed
@@ -459,6 +476,34 @@ def importDB (s : Eng) (data : ByteArray) : M Eng := do
     match body with
     | .ok s' => pure { s' with locks := s'.locks.unlockAll i }
     | .error (s', r) => fail { s' with locks := s'.locks.unlockAll i } r
+
+/-- one step of a background `Export` / `WriteSnapshotTo` -/
+inductive BgStep where
+  | lock (l : LockType) (req : Nat)     -- 0 = RLock, 1 = Lock, 2 = Unlock
+  | capture
+  | read
+  deriving Repr, DecidableEq
+
+/-- `WriteSnapshotTo`: the write lock is released right after the capture (a later self-check
+    of the checksum catches interference); `Export` (after 068dfa9): the write lock is kept until
+    the checkpoint and read locks are held -/
+def bgSeq (snapshot wal : Bool) : List BgStep :=
+  let head : List BgStep := [.lock .pending 0, .lock .shared 0, .lock .pending 2] ++ (if wal then [.lock .write 1] else []) ++ [.capture]
+  let reads : List BgStep := [.lock .ckpt 0, .lock .recover 0, .lock .read0 0, .lock .read1 0, .lock .read2 0, .lock .read3 0, .lock .read4 0]
+  if snapshot then head ++ [.lock .write 2] ++ reads ++ [.lock .ckpt 2, .lock .recover 2, .read]
+  else head ++ reads ++ [.lock .write 2, .read]
+
+/-- pages as the background op reads them: captured size and WAL offsets, current file contents -/
+def bgPages (s : Eng) (b : BgSt) : Option (List ByteArray) :=
+  let dbf := s.dbFile.getD ByteArray.empty
+  let wal := s.wal.getD ByteArray.empty
+  if s.dbFile.isNone && b.capPageN > 0 then none else
+  if !b.capOffsets.isEmpty && s.wal.isNone then none else
+  (List.range b.capPageN).mapM fun i =>
+    match b.capOffsets.lookup (i + 1) with
+    | some off => if wal.size < off + 24 + b.capPageSize then none else some (wal.extract (off + 24) (off + 24 + b.capPageSize))
+    | none => let off := i * b.capPageSize
+              if dbf.size < off + b.capPageSize then none else some (dbf.extract off (off + b.capPageSize))
 
 /-- `EnforceRetention(minTime)` without a backup client: every file older than the cut-off is
     removed, except the newest file of the listing -/
